@@ -320,7 +320,8 @@ def main_check(prop, tier, seed, n_runs=None, workers=None, time_cap=None):
             r = rs[0]
             iso = lambda spec, wd, _p=prop: execute_isolated(_p, spec, wd)
             # full minimisation budget for the first few distinct violations, a small one for the rest
-            m = M.Minimiser(iso, os.path.join(base, "min"), budget=P.get("min_budget", 250) if nsig < 3 else 40)
+            m = M.Minimiser(iso, os.path.join(base, "min"), budget=P.get("min_budget", 250) if nsig < 3 else 40,
+                            seconds=150 if nsig < 3 else 40)
             res0 = iso(r["spec"], os.path.join(base, "min0"))
             if res0.get("violation") is None or res0["violation"].get("signature") != sig:
                 print("HARNESS-ERROR violation of run %d did not reproduce in the parent process" % r["run"])
